@@ -500,7 +500,13 @@ fn read_operations_since_from_file(
     let mut oop_buffer = [0; 1];
     f.seek(SeekFrom::Start(seek_point)).unwrap();
     let now = Instant::now();
-    let mut opp_count: u64 = 0;
+    // Positions keep counting across files (they are read in write order), the catch-up sorts
+    // the operations by this position
+    let mut opp_count: u64 = opps_since
+        .values()
+        .map(|record| record.opp_position)
+        .max()
+        .unwrap_or(0);
     while let Ok(i) = f.read(&mut time_buffer) {
         //Read key from disk
         let possible_records = (max - min) / size_as_u64;
